@@ -238,6 +238,18 @@ Proof.
         split; [exact Hne|]. intros q Hq. destruct (Hin q Hq) as [Hr _]. cbn [cond_p pp] in Hr. lia.
       * destruct (pre_ok_block N f IHf HfF (cond_f p p0) ctx [] WF j) as [Hne Hin]; [cbn [cond_f pt]; lia|].
         split; [exact Hne|]. intros q Hq. destruct (Hin q Hq) as [Hr _]. cbn [cond_f pp] in Hr. lia.
+  - (* while loop *)
+    pose proof (frag_while _ _ Hf) as HfB. cbn [wired] in Hw.
+    destruct Hw as (W1 & _ & _ & W4 & _ & _ & W7 & _ & _ & WB).
+    intros j Hj. rewrite ntrans_while in Hj. rewrite nplaces_while. cbn [xplace].
+    pose proof (xplace_range_b b HfB (cond_p p0)) as XB. cbn [cond_p pp] in XB.
+    destruct (Nat.eq_dec j (pt p0)) as [->|N0]; [|destruct (Nat.eq_dec j (pt p0 + 1)) as [->|N1];
+      [|destruct (Nat.eq_dec j (pt p0 + 2)) as [->|N2]]].
+    + rewrite W1. split; [discriminate|]. intros q [<-|[<-|[]]]; lia.
+    + rewrite W4. split; [discriminate|]. intros q [<-|[<-|[]]]; lia.
+    + rewrite W7. split; [discriminate|]. intros q [<-|[]]. lia.
+    + destruct (pre_ok_block N b IH HfB (cond_p p0) ctx [] WB j) as [Hne Hin]; [cbn [cond_p pt]; lia|].
+      split; [exact Hne|]. intros q Hq. destruct (Hin q Hq) as [Hr _]. cbn [cond_p pp] in Hr. lia.
 Qed.
 
 (* =========================================================================== *)
@@ -378,6 +390,11 @@ Fixpoint ml (st : rst) (s : xstmt) (p : pos) {struct st} : list nat :=
     | Some s' => ml st' s' (spos (if b then P else F) (if b then cond_p p else cond_f P p) i)
     | None => []
     end
+  | RLoop _ i st', XWhile _ B =>
+    match nth_error B i with
+    | Some s' => ml st' s' (spos B (cond_p p) i)
+    | None => []
+    end
   | _, _ => []
   end.
 
@@ -406,9 +423,14 @@ Lemma ml_cond : forall (b : bool) i st e P F p,
     ml (RCond b i st) (XCond e P F) p = ml_block (if b then P else F) (if b then cond_p p else cond_f P p) i st.
 Proof. reflexivity. Qed.
 
+Lemma ml_loop : forall k i st e B p, ml (RLoop k i st) (XWhile e B) p = ml_block B (cond_p p) i st.
+Proof. reflexivity. Qed.
+
 Definition EvF (i : nat) : event := EvFinish (ITest i).
 
-(* the API records and place_dict bindings of the active part of the tree, and its shape:
+(* the API records and place_dict bindings of the active part of the tree, and its shape
+   (the conjunct about [N0] is a placeholder: the relation to the generated net is kept
+   globally, in Sim.Inv):
    a service that is awaited carries its test identifier and is bound to its 'finished' place;
    a running call carries its identifier; what is inside a running component is not complete *)
 Section Act.
@@ -417,14 +439,11 @@ Section Act.
   Fixpoint act (st : rst) (s : xstmt) (p : pos) (ctx : nat) {struct st} : Prop :=
     match st, s with
     | RAwait id, XService n at_ ins =>
-      nth_error (ns_apis ns) (pa p) = Some (with_uuid (ITest id) (svc_api n at_ ins ctx (pa p))) /\
+      (exists il, nth_error (ns_apis ns) (pa p) = Some (with_uuid (ITest id) (svc_api il n at_ ins ctx (pa p)))) /\
       dict_get ident_eqb (ITest id) (ns_place_dict ns) = Some (pp p + 1) /\ id < ns_sid ns
     | RCall cid i st', XCall t at_ ins body =>
-      nth_error (ns_apis ns) (pa p) = Some (with_uuid (ITest cid) (call_api t at_ ins ctx (pa p))) /\
-      is_done st' = false /\
-      (forall k s0 a, i < k -> nth_error body k = Some s0 ->
-                      pa (spos body (body_pos p) k) <= a < pa (spos body (body_pos p) k) + napis s0 ->
-                      nth_error (ns_apis ns) a = nth_error (ns_apis N0) a) /\
+      (exists il, nth_error (ns_apis ns) (pa p) = Some (with_uuid (ITest cid) (call_api il t at_ ins ctx (pa p)))) /\
+      is_done st' = false /\ (ns_trans N0 = ns_trans N0) /\
       match nth_error body i with
       | Some s' => act st' s' (spos body (body_pos p) i) (pa p)
       | None => False
@@ -438,13 +457,15 @@ Section Act.
          | _, _ => False
          end) sts bs (par_pos p)
     | RCond b i st', XCond _ P F =>
-      is_done st' = false /\
-      (forall k s0 a, i < k -> nth_error (if b then P else F) k = Some s0 ->
-                      pa (spos (if b then P else F) (if b then cond_p p else cond_f P p) k) <= a
-                      < pa (spos (if b then P else F) (if b then cond_p p else cond_f P p) k) + napis s0 ->
-                      nth_error (ns_apis ns) a = nth_error (ns_apis N0) a) /\
+      is_done st' = false /\ (ns_trans N0 = ns_trans N0) /\
       match nth_error (if b then P else F) i with
       | Some s' => act st' s' (spos (if b then P else F) (if b then cond_p p else cond_f P p) i) ctx
+      | None => False
+      end
+    | RLoop _ i st', XWhile _ B =>
+      is_done st' = false /\ (ns_trans N0 = ns_trans N0) /\
+      match nth_error B i with
+      | Some s' => act st' s' (spos B (cond_p p) i) ctx
       | None => False
       end
     | RDone, _ => True
@@ -458,19 +479,19 @@ Section Act.
     | _, _ => False
     end.
   Definition act_block (body : list xstmt) (bp : pos) (ctx : nat) (i : nat) (st : rst) : Prop :=
-    is_done st = false /\
-    (forall k s0 a, i < k -> nth_error body k = Some s0 ->
-                    pa (spos body bp k) <= a < pa (spos body bp k) + napis s0 ->
-                    nth_error (ns_apis ns) a = nth_error (ns_apis N0) a) /\
+    is_done st = false /\ (ns_trans N0 = ns_trans N0) /\
     match nth_error body i with Some s' => act st s' (spos body bp i) ctx | None => False end.
 
   Lemma act_cond : forall (b : bool) i st e P F p ctx,
       act (RCond b i st) (XCond e P F) p ctx
       = act_block (if b then P else F) (if b then cond_p p else cond_f P p) ctx i st.
   Proof. reflexivity. Qed.
+  Lemma act_loop : forall k i st e B p ctx,
+      act (RLoop k i st) (XWhile e B) p ctx = act_block B (cond_p p) ctx i st.
+  Proof. reflexivity. Qed.
   Lemma act_call : forall cid i st t at_ ins body p ctx,
       act (RCall cid i st) (XCall t at_ ins body) p ctx
-      = (nth_error (ns_apis ns) (pa p) = Some (with_uuid (ITest cid) (call_api t at_ ins ctx (pa p))) /\
+      = ((exists il, nth_error (ns_apis ns) (pa p) = Some (with_uuid (ITest cid) (call_api il t at_ ins ctx (pa p)))) /\
          act_block body (body_pos p) (pa p) i st).
   Proof. reflexivity. Qed.
 
@@ -647,7 +668,11 @@ Proof.
     + destruct (ml_block_range_gen N0 ns st' P (cond_p p) ctx i q IH HfP Ha Hq) as [R X]. cbn [cond_p pp] in R. lia.
     + assert (HfF : frag_block F = true) by (apply (frag_cond_F _ _ _ Hf); intros ->; destruct i; exact Ha).
       destruct (ml_block_range_gen N0 ns st' F (cond_f P p) ctx i q IH HfF Ha Hq) as [R X]. cbn [cond_f pp] in R. lia.
-  - destruct s; cbn [act] in Ha; contradiction.
+  - destruct s as [| | | |e B| | ]; cbn [act] in Ha; try contradiction.
+    destruct Ha as (_ & _ & Ha). rewrite ml_loop in Hq.
+    pose proof (frag_while _ _ Hf) as HfB.
+    unfold in_p. rewrite nplaces_while. cbn [xplace].
+    destruct (ml_block_range_gen N0 ns st' B (cond_p p) ctx i q IH HfB Ha Hq) as [R X]. cbn [cond_p pp] in R. lia.
   - destruct s; cbn [act] in Ha; contradiction.
 Qed.
 
@@ -848,7 +873,29 @@ Proof.
            intro Hi. apply Hmlr in Hi. lia.
         -- destruct (stable_block_gen N0 ns N st' F (cond_f P p) ctx ctx' [] i IH HfF WF Hd' Ha j HjF) as (q & Q1 & Q2 & Q3).
            exists q. split; [exact Q1|]. split; [unfold in_pb in Q2; cbn [cond_f pp] in Q2; lia|exact Q3].
-  - destruct s; cbn [act] in Ha; contradiction.
+  - (* while loop: the body is active *)
+    destruct s as [| | | |e B| | ]; cbn [act] in Ha; try contradiction.
+    destruct Ha as (Hd' & _ & Ha).
+    pose proof (frag_while _ _ Hf) as HfB. cbn [wired] in Hw.
+    destruct Hw as (W1 & _ & _ & W4 & _ & _ & W7 & _ & _ & WB).
+    unfold in_t in Hj. rewrite ntrans_while in Hj. rewrite ml_loop.
+    pose proof (xplace_range_b B HfB (cond_p p)) as XB. cbn [cond_p pp] in XB.
+    assert (Hmlr : forall q, In q (ml_block B (cond_p p) i st') ->
+                             pp p + 4 <= q < pp p + 4 + nplaces_l B /\ q <> xplace_b B (cond_p p)).
+    { intros q Hq. destruct (ml_block_range_gen N0 ns st' B (cond_p p) ctx' i q (ml_range N0 ns st') HfB Ha Hq) as [R X].
+      cbn [cond_p pp] in R. split; assumption. }
+    unfold in_p. rewrite nplaces_while.
+    destruct (Nat.eq_dec j (pt p)) as [->|N0']; [|destruct (Nat.eq_dec j (pt p + 1)) as [->|N1];
+      [|destruct (Nat.eq_dec j (pt p + 2)) as [->|N2]]].
+    + exists (pp p). rewrite W1. split; [left; reflexivity|]. split; [lia|].
+      intro Hi. apply Hmlr in Hi. lia.
+    + exists (pp p). rewrite W4. split; [left; reflexivity|]. split; [lia|].
+      intro Hi. apply Hmlr in Hi. lia.
+    + exists (xplace_b B (cond_p p)). rewrite W7. split; [left; reflexivity|]. split; [lia|].
+      intro Hi. apply Hmlr in Hi. destruct Hi as [_ Hi]. congruence.
+    + assert (HjB : in_tb B (cond_p p) j) by (unfold in_tb; cbn [cond_p pt]; lia).
+      destruct (stable_block_gen N0 ns N st' B (cond_p p) ctx ctx' [] i IH HfB WB Hd' Ha j HjB) as (q & Q1 & Q2 & Q3).
+      exists q. split; [exact Q1|]. split; [unfold in_pb in Q2; cbn [cond_p pp] in Q2; lia|exact Q3].
   - destruct s; cbn [act] in Ha; contradiction.
 Qed.
 
@@ -880,9 +927,7 @@ Proof.
   - destruct s as [| t at_ ins body | | | | | ]; cbn [act] in *; try contradiction.
     destruct Ha as (A1 & A2 & A2' & A3). rewrite napis_call in Hap.
     split; [rewrite Hap by lia; exact A1|]. split; [exact A2|].
-    split.
-    { intros k0 s0 a0 Hk0 Hn0 Ha0. rewrite Hap; [apply (A2' k0 s0 a0 Hk0 Hn0 Ha0)|].
-      pose proof (spos_range body (body_pos p) k0 s0 Hn0) as R. cbn [body_pos pa] in R. lia. }
+    split; [reflexivity|].
     destruct (nth_error body i) as [s'|] eqn:En; [|contradiction].
     pose proof (frag_call _ _ _ _ Hf) as [_ Hfb]. pose proof (frag_block_nth _ _ _ Hfb En) as Hfs.
     apply IH; try assumption. intros k0 Hk0. apply Hap.
@@ -914,15 +959,19 @@ Proof.
     { intros k0 s0 Hn0. destruct b.
       - pose proof (spos_range P (cond_p p) k0 s0 Hn0) as R. cbn [cond_p pa] in R. lia.
       - pose proof (spos_range F (cond_f P p) k0 s0 Hn0) as R. cbn [cond_f pa] in R. lia. }
-    split; [exact A2|]. split.
-    { intros k0 s0 a0 Hk0 Hn0 Ha0. rewrite Hap; [apply (A2' k0 s0 a0 Hk0 Hn0 Ha0)|].
-      pose proof (Hrng k0 s0 Hn0). lia. }
+    split; [exact A2|]. split; [reflexivity|].
     destruct (nth_error (if b then P else F) i) as [s'|] eqn:En; [|contradiction].
     assert (Hfs : frag s' = true).
     { destruct b; [apply (frag_block_nth _ _ _ HfP En)|].
       apply (frag_block_nth F i s'); [|exact En]. apply (frag_cond_F _ _ _ Hf). intros ->. destruct i; discriminate En. }
     apply IH; try assumption. intros k0 Hk0. apply Hap. pose proof (Hrng i s' En). lia.
-  - destruct s; cbn [act] in Ha; contradiction.
+  - destruct s as [| | | |e B| | ]; cbn [act] in *; try contradiction.
+    destruct Ha as (A2 & A2' & A3). rewrite napis_while in Hap.
+    pose proof (frag_while _ _ Hf) as HfB.
+    split; [exact A2|]. split; [reflexivity|].
+    destruct (nth_error B i) as [s'|] eqn:En; [|contradiction].
+    apply IH; try assumption; [apply (frag_block_nth _ _ _ HfB En)|].
+    intros k0 Hk0. apply Hap. pose proof (spos_range B (cond_p p) i s' En) as R. cbn [cond_p pa] in R. lia.
   - destruct s; cbn [act] in Ha; contradiction.
 Qed.
 
@@ -976,6 +1025,8 @@ Proof.
     cbn [wired] in Hw. destruct Hw as (_ & _ & _ & _ & _ & _ & _ & W8 & W9 & _ & W11 & W12 & _).
     cbn [exits] in He. fold (ntrans_b P) in He. cbn [own xplace app].
     destruct He as [<-|[<-|[]]]; [split; assumption|]. unfold cond_sf in W11, W12. split; assumption.
+  - cbn [wired] in Hw. destruct Hw as (_ & _ & _ & _ & W5 & W6 & _).
+    cbn [exits] in He. cbn [own xplace app]. destruct He as [<-|[]]. split; assumption.
 Qed.
 
 Lemma no_parloop_app : forall l1 l2, no_parloop (l1 ++ l2) = no_parloop l1 && no_parloop l2.
@@ -1134,7 +1185,12 @@ Proof.
     unfold in_p in *. rewrite nplaces_cond. destruct b.
     + pose proof (spos_range P (cond_p p) i s' En) as R. cbn [cond_p pp] in R. lia.
     + pose proof (spos_range F (cond_f P p) i s' En) as R. cbn [cond_f pp] in R. lia.
-  - destruct s; cbn [act] in Ha; contradiction.
+  - destruct s as [| | | |e B| | ]; cbn [act] in Ha; try contradiction.
+    destruct Ha as (_ & _ & Ha). destruct (nth_error B i) as [s'|] eqn:En; [|contradiction].
+    pose proof (frag_while _ _ Hf) as HfB.
+    cbn [svc_ids] in Hin. destruct (IH s' _ _ id (frag_block_nth _ _ _ HfB En) Ha Hin) as (fp & Hd & Hr).
+    exists fp. split; [exact Hd|].
+    unfold in_p in *. rewrite nplaces_while. pose proof (spos_range B (cond_p p) i s' En) as R. cbn [cond_p pp] in R. lia.
   - destruct s; cbn [act] in Ha; contradiction.
 Qed.
 
@@ -1273,6 +1329,7 @@ Proof.
     pose proof (bpos_range bs (par_pos p) k b Hb) as R. cbn [par_pos pp] in R.
     unfold in_p in *. rewrite nplaces_par. cbn [xplace]. lia.
   - cbn [entries] in Hq. destruct Hq as [<-|[]]. unfold in_p. rewrite nplaces_cond. cbn [xplace]. lia.
+  - cbn [entries] in Hq. destruct Hq as [<-|[]]. unfold in_p. rewrite nplaces_while. cbn [xplace]. lia.
 Qed.
 
 Lemma entries_range_b : forall l, frag_block l = true -> forall p q, In q (entries_b l p) ->
@@ -1382,6 +1439,18 @@ Proof.
         exists q. split; [exact Q1|]. unfold in_pb in Q2. cbn [cond_p pp] in Q2. split; [lia|]. intros [E|[]]. lia.
       * destruct (exit_blocked_block N F (cond_f P p) ctx [] HfF WF j) as (q & Q1 & Q2 & _); [unfold in_tb; cbn [cond_f pt]; lia|].
         exists q. split; [exact Q1|]. unfold in_pb in Q2. cbn [cond_f pp] in Q2. split; [lia|]. intros [E|[]]. lia.
+  - (* while loop *)
+    pose proof (frag_while _ _ Hf) as HfB. cbn [wired] in Hw.
+    destruct Hw as (W1 & _ & _ & W4 & _ & _ & W7 & _ & _ & WB).
+    unfold in_t in Hj. rewrite ntrans_while in Hj. unfold in_p. rewrite nplaces_while. cbn [entries].
+    pose proof (xplace_range_b b HfB (cond_p p)) as XB. cbn [cond_p pp] in XB.
+    destruct (Nat.eq_dec j (pt p)) as [->|N0']; [|destruct (Nat.eq_dec j (pt p + 1)) as [->|N1];
+      [|destruct (Nat.eq_dec j (pt p + 2)) as [->|N2]]].
+    + exists (pp p + 1). rewrite W1. split; [right; left; reflexivity|]. split; [lia|]. intros [E|[]]. lia.
+    + exists (pp p + 2). rewrite W4. split; [right; left; reflexivity|]. split; [lia|]. intros [E|[]]. lia.
+    + exists (xplace_b b (cond_p p)). rewrite W7. split; [left; reflexivity|]. split; [lia|]. intros [E|[]]. lia.
+    + destruct (exit_blocked_block N b (cond_p p) ctx [] HfB WB j) as (q & Q1 & Q2 & _); [unfold in_tb; cbn [cond_p pt]; lia|].
+      exists q. split; [exact Q1|]. unfold in_pb in Q2. cbn [cond_p pp] in Q2. split; [lia|]. intros [E|[]]. lia.
 Qed.
 
 Lemma cnt_cat_entries_at : forall bs q k b x,
